@@ -50,6 +50,7 @@ pub fn plan() -> Plan {
             e.max_outgoing = vec![10];
             e
         })),
+        relabel: None,
     }
 }
 
